@@ -106,9 +106,26 @@ fn load(wasm: &[u8]) -> Result<M> {
                 m.datas.push(match d?.kind { DataKind::Active { memory_index, offset_expr } => Some((memory_index, const_refs(&offset_expr)?)), DataKind::Passive => None });
             },
             Payload::CodeSectionEntry(b) => {
+                // references from syntactically dead code (after br / br_table / return / unreachable, up to the end of the enclosing
+                // construct) do not count: such code never executes, and walrus does not re-emit it
                 let mut v = vec![];
                 let mut r = b.get_operators_reader()?;
-                while !r.eof() { op_refs(&r.read()?, &mut v); }
+                let mut frames: Vec<(bool, bool)> = vec![(false, false)];   // (dead on entry, dead now)
+                while !r.eof() {
+                    let op = r.read()?;
+                    let dead = frames.last().map(|f| f.1).unwrap_or(false);
+                    match &op {
+                        Operator::Block { .. } | Operator::Loop { .. } | Operator::If { .. } => { if !dead { op_refs(&op, &mut v); } frames.push((dead, dead)); }
+                        Operator::Else => { if let Some(f) = frames.last_mut() { f.1 = f.0; } }
+                        Operator::End => { frames.pop(); }
+                        Operator::Br { .. } | Operator::BrTable { .. } | Operator::Return | Operator::Unreachable
+                        | Operator::ReturnCall { .. } | Operator::ReturnCallIndirect { .. } => {
+                            if !dead { op_refs(&op, &mut v); }
+                            if let Some(f) = frames.last_mut() { f.1 = true; }
+                        }
+                        _ => { if !dead { op_refs(&op, &mut v); } }
+                    }
+                }
                 m.bodies.push(v);
             }
             _ => {}
